@@ -104,7 +104,13 @@ class LiquidError(Exception):
                 break
 
         if target_line_index == -1:
-            raise ValueError("index is out of bounds for the given string")
+            if index > len(text):
+                raise ValueError("index is out of bounds for the given string")
+            # An index at the very end of the text, as used by errors found at
+            # the end of input. Point to just past the last character.
+            if not lines:
+                return 1, 0, "", "", ""
+            target_line_index = len(lines) - 1
 
         # Line number (1-based)
         line_number = target_line_index + 1
